@@ -2,7 +2,7 @@
     with the untrusted certificate recovered by the harness; [judge] runs the verified checkers of Flat/*.v on it
     (accepted = the soundness theorem applies to this very output) and, only when a checker rejects, classifies
     the rejection (which pieces exceed K tol, and whether the known step-rule trigger holds on them). *)
-From Coq Require Import ZArith QArith List Bool.
+From Coq Require Import ZArith QArith Qround List Bool.
 From CV Require Import Base.Dy Flat.Curves Flat.Cert Flat.Arc Flat.XMono.
 Import ListNotations.
 Open Scope Q_scope.
@@ -15,7 +15,7 @@ Inductive case03 :=
 | CXMono (ctrl : list pt) (ok : bool) (pieces : list (list pt)) (ts : list Q)
 | CPub (op : Z) (ok : bool) (inp out : list subpath_sum).
 
-Definition slack : Q := 1 # 1073741824.          (* 2^-30 *)
+Definition slack : Q := 1 # 262144.          (* 2^-18: covers |B'| * 2^-25 for parameters rounded to 2^-24 *)
 Definition Kquad : Q := 2.
 Definition Kcube : Q := 8.
 Definition Kcirc : Q := 2.
@@ -60,8 +60,8 @@ Definition all_close (B : Q -> pt) (ts : list Q) (vs : list pt) : bool :=
 Definition judge_bez (B d1 : Q -> pt) (pb : Q -> Q -> Q) (a b : pt) (accepted : bool) (K tol : Q) (ok : bool)
            (vs : list pt) (ts : list Q) (wit : list (Q * Q)) : list Z :=
   if negb ok then [1%Z; 0%Z; 0%Z; 0%Z; 0%Z] else
+  if accepted then [0%Z; Z.of_nat (length ts - 1); 0%Z; 0%Z; 0%Z] else
   let '(n, k, f, m) := diag d1 pb (sqr (K * tol)) wit ts in
-  if accepted then [0%Z; n; 0%Z; 0%Z; ratio_milli2 m tol] else
   let ends := negb (Nat.eqb (length ts) (length vs) && chk_ends (combine ts vs) a b) in
   let onc := negb (all_close B ts vs && increasing ts) in
   [ (bit ends 2 + bit onc 4 + bit (0 <? f)%Z 8 + bit (0 <? k)%Z 16 + 32)%Z; n; k; f; ratio_milli2 m tol ].
@@ -69,10 +69,10 @@ Definition judge_bez (B d1 : Q -> pt) (pb : Q -> Q -> Q) (a b : pt) (accepted : 
 Definition judge (c : case03) : list Z :=
   match c with
   | CQuad [p0; p1; p2] tol ok vs ts wit =>
-      judge_bez (quadB p0 p1 p2) (quad_d1 p0 p1 p2) (quad_pb p0 p1 p2) p0 p2
+      judge_bez (quadB_f p0 p1 p2) (quad_d1 p0 p1 p2) (quad_pb p0 p1 p2) p0 p2
                 (chk_flat_quad p0 p1 p2 ts vs tol Kquad slack) Kquad tol ok vs ts wit
   | CCube [p0; p1; p2; p3] tol ok vs ts wit =>
-      judge_bez (cubeB p0 p1 p2 p3) (cube_d1 p0 p1 p2 p3) (cube_pb p0 p1 p2 p3) p0 p3
+      judge_bez (cubeB_f p0 p1 p2 p3) (cube_d1 p0 p1 p2 p3) (cube_pb p0 p1 p2 p3) p0 p3
                 (chk_flat_cube p0 p1 p2 p3 ts vs tol Kcube slack) Kcube tol ok vs ts wit
   | CCirc a tol ok vs => judge_circ a tol Kcirc slack ok vs
   | CArcCube e ok cubics => judge_arccube e ok cubics
